@@ -173,6 +173,10 @@ class PcolSuite:
                     cases.append({"k": "opt", "src_trough": st, "dst_trough": dt, "mode": mode})
                     if mode in ("auto", "source", "destination"):
                         cases.append({"k": "opt", "src_trough": st, "dst_trough": dt, "mode": mode, "via_labware": True})
+                        # a trough is a trough whatever its number of virtual rows; a plate may have a single row
+                        cases.append({"k": "opt", "src_trough": st, "dst_trough": dt, "mode": mode, "vrows": 1})
+                        cases.append({"k": "opt", "src_trough": st, "dst_trough": dt, "mode": mode, "vrows": 1, "via_labware": True})
+                        cases.append({"k": "opt", "src_trough": st, "dst_trough": dt, "mode": mode, "vrows": 8, "prows": 1})
         return cases
 
     def run(self, case):
@@ -184,12 +188,13 @@ class PcolSuite:
             import warnings
 
             warnings.simplefilter("ignore")
+            vr = case.get("vrows", 4)
             if case.get("via_labware"):
-                mk = lambda tr, nm: (robotools.Labware(nm, 1, 2, virtual_rows=4, min_volume=0, max_volume=100) if tr
+                mk = lambda tr, nm: (robotools.Labware(nm, 1, 2, virtual_rows=vr, min_volume=0, max_volume=100) if tr
                                      else robotools.Labware(nm, 4, 2, min_volume=0, max_volume=100))
             else:
-                mk = lambda tr, nm: (robotools.Trough(nm, 4, 2, min_volume=0, max_volume=100) if tr
-                                     else robotools.Labware(nm, 4, 2, min_volume=0, max_volume=100))
+                mk = lambda tr, nm: (robotools.Trough(nm, vr, 2, min_volume=0, max_volume=100) if tr
+                                     else robotools.Labware(nm, case.get("prows", 4), 2, min_volume=0, max_volume=100))
             try:
                 out = optimize_partition_by(mk(case["src_trough"], "s"), mk(case["dst_trough"], "d"), case["mode"], "lbl")
                 return {"err": None, "val": out}
@@ -356,7 +361,10 @@ class WellsSuite:
             arr = transform.make_well_array(case["R"], case["C"])
             d = transform.make_well_index_dict(case["R"], case["C"])
             return {"wells": [[str(x) for x in row] for row in arr], "keys": [[k, list(v)] for k, v in d.items()]}
-        lw = self._mk(case)
+        try:
+            lw = self._mk(case)
+        except Exception as e:
+            return {"ctor_error": type(e).__name__}
 
         def call(f, w):
             try:
@@ -432,6 +440,8 @@ class WellsSuite:
             return (f"(KWellArr {case['R']} {case['C']} {clist([clist([cstr(w) for w in row]) for row in obs['wells']])} "
                     f"{clist(['(%s, (%d, %d))' % (cstr(k), v[0], v[1]) for k, v in obs['keys']])})")
         tr = cbool(case["trough"])
+        if obs.get("ctor_error"):
+            return f"(KGeom {tr} {case['rows']} {case['cols']} [] [])"  # never equal to the model's tables of a valid geometry
         if case["k"] == "bad":
             idx = copt(obs["idx"], lambda v: f"({v[0]}, {v[1]})")
             return (f"(KBadId {tr} {case['rows']} {case['cols']} {cstr(case['id'])} {idx} "
@@ -441,7 +451,7 @@ class WellsSuite:
         return f"(KGeom {tr} {case['rows']} {case['cols']} {wells} {tbl})"
 
     def nontrivial(self, case, obs):
-        return case["k"] == "geom" and case["rows"] > 1 and case["cols"] > 1
+        return case["k"] == "geom" and case["rows"] > 1 and case["cols"] > 1 and not obs.get("ctor_error")
 
     def kind(self, case, obs):
         if case["k"] == "geom":
@@ -450,6 +460,8 @@ class WellsSuite:
 
     def oracle_C08(self, case, obs):
         bad = []
+        if obs.get("ctor_error"):
+            return [f"geometry: a valid geometry ({case['rows']} {'virtual ' if case['trough'] else ''}rows x {case['cols']} columns) was refused with {obs['ctor_error']}: no mapping exists for it"]
         if case["k"] == "arr":
             R, C = min(case["R"], 26), case["C"]
             want = [[wid(r, c) for c in range(C)] for r in range(R)]
@@ -1354,6 +1366,7 @@ class SaveSuite:
                 else:
                     wl = robotools.FluentWorklist(arg)
                     wl.append("C;stale")
+                    propagated = False
                     try:
                         with wl as w:
                             entered_empty = len(w) == 0
@@ -1365,7 +1378,7 @@ class SaveSuite:
                             if case["via"] == "with_exc":
                                 raise KeyError("boom")
                     except KeyError:
-                        pass
+                        propagated = True
             except Exception as e:
                 exc = e
             content = p.read_bytes().decode("latin-1") if p.exists() else None
@@ -1377,7 +1390,8 @@ class SaveSuite:
                     "shown": str(wl), "entered_empty": entered_empty,
                     "readback": content.split("\r\n") if content is not None else None,
                     "filepath_ok": (wl.filepath == p) if case["via"].startswith("with") else None,
-                    "same_as_repr": str(wl) == repr(wl)}
+                    "same_as_repr": str(wl) == repr(wl),
+                    "propagated": (propagated if case["via"] == "with_exc" else None)}
         finally:
             shutil.rmtree(d, ignore_errors=True)
 
@@ -1403,6 +1417,16 @@ class SaveSuite:
 
     def kind(self, case, obs):
         return case["via"] + ":" + (obs.get("exc") or "ok")
+
+    def oracle_C02(self, case, obs):
+        """an error raised by an operation inside a `with` block reaches the caller (the block writes the file, it does not
+        swallow the exception)"""
+        if case["via"] == "with_exc" and obs.get("propagated") is False and not obs.get("err"):
+            return ["raise: an exception raised inside the with block of a worklist did not reach the caller"]
+        return []
+
+    def oracle_C03(self, case, obs):
+        return self.oracle_C02(case, obs)
 
     def oracle_C01(self, case, obs):
         """the file the robot executes holds the emitted records, one per line, nothing lost or merged"""
